@@ -358,7 +358,10 @@ def sgrLoop (dflt : Attr) : Nat → List Nat → Attr → Attr
             | none => sgrLoop dflt fuel rest3 a
         else if n == 2 then
           match rest2 with
-          | r :: g :: b :: rest3 => sgrLoop dflt fuel rest3 (setColor isFg (hex2 r ++ hex2 g ++ hex2 b) a)
+          | r :: g :: b :: rest3 =>
+            -- a component above 255 is not a colour: the form is ignored (its parameters are consumed)
+            if r ≤ 255 ∧ g ≤ 255 ∧ b ≤ 255 then sgrLoop dflt fuel rest3 (setColor isFg (hex2 r ++ hex2 g ++ hex2 b) a)
+            else sgrLoop dflt fuel rest3 a
           | _ => a
         else sgrLoop dflt fuel rest2 a
     else sgrLoop dflt fuel rest a
